@@ -105,6 +105,10 @@ func classify(err error) string {
 	case errors.Is(err, heimdall.ErrAuthorization), errors.Is(err, heimdall.ErrAuthentication):
 		return "deny"
 	default:
+		if os.Getenv("VERIF_DEBUG") != "" {
+			fmt.Fprintln(os.Stderr, "c11 error:", err)
+		}
+
 		return "error"
 	}
 }
@@ -476,12 +480,19 @@ func introspection(p Pair, side int, base string) (evalFn, error) {
 		epConf["auth"] = au
 	}
 
+	mconf := config.MechanismConfig{
+		"introspection_endpoint": epConf,
+		"assertions":             map[string]any{"issuers": strs("iss")},
+		"cache_ttl":              "30s",
+	}
+
+	if p.Mech == "oauth2_introspection_md" {
+		// the introspection endpoint and the issuer to trust come from the server's metadata document
+		mconf = config.MechanismConfig{"metadata_endpoint": map[string]any{"url": base + "/meta/.well-known/oauth-authorization-server"}, "cache_ttl": "30s"}
+	}
+
 	f, err := c10.NewFactory(&config.MechanismPrototypes{Authenticators: []config.Mechanism{{
-		ID: "m", Type: "oauth2_introspection", Config: config.MechanismConfig{
-			"introspection_endpoint": epConf,
-			"assertions":             map[string]any{"issuers": strs("iss")},
-			"cache_ttl":              "30s",
-		},
+		ID: "m", Type: "oauth2_introspection", Config: mconf,
 	}}})
 	if err != nil {
 		return nil, err
@@ -961,6 +972,8 @@ func httpCache(p Pair, side int, base string) (evalFn, error) {
 		method = http.MethodPut
 	case is(p, side, "differ", "authorization"):
 		authz = "A2"
+	case is(p, side, "differ", "authorization_case"):
+		authz = "a1" // credentials are case-sensitive
 	case is(p, side, "differ", "body"):
 		body = "b2"
 	}
